@@ -21,6 +21,7 @@ from fvmon import gen
 from fvmon.observe import unbox
 
 SPEC = {
+    "anchors": ["fibertree.core.tensor:Tensor._splitGeneric", "fibertree.core.tensor:Tensor.swizzleRanks", "fibertree.core.tensor:Tensor.swapRanks", "fibertree.core.tensor:Tensor.flattenRanks", "fibertree.core.tensor:Tensor.unflattenRanks", "fibertree.core.tensor:Tensor._flattenRankIdsShape", "fibertree.core.tensor:Tensor._unflattenRankIdsShape", "fibertree.core.rank:Rank.getShape", "fibertree.core.rank:Rank.append", "fibertree.core.fiber:Fiber.getShape", "fibertree.core.fiber:Fiber.getActive", "fibertree.core.fiber:Fiber.getDefault", "fibertree.core.fiber:Fiber.project", "fibertree.core.fiber:Fiber.prune", "fibertree.core.iterators:__and__", "fibertree.core.iterators:__or__", "fibertree.core.iterators:__xor__", "fibertree.core.iterators:__sub__", "fibertree.core.iterators:__lshift__", "fibertree.core.iterators:intersection", "fibertree.core.iterators:union", "fibertree.core.iterators:coiterRangeShape"],
     "rule": ("cases = (xform) a tensor built by fromFiber / fromUncompressed / fromRandom / makePopulated with "
              "explicit (different extent per rank) or estimated shape, leaf default 0 or non-zero, a per-rank C/U "
              "format assignment and a mutability hint, followed by a chain of 1-3 transforms (four split kinds x "
